@@ -413,6 +413,55 @@ inline void bigTotals(Ctx& c, long j)
     c.count("reassembled_totals_at_top_of_range");
 }
 
+// deterministic: one message in very many segments (more than 255, more than 4095, 65535 one-byte segments: the
+// sequence counter goes once around), another endpoint interleaved
+inline void manySegments(Ctx& c, long j)
+{
+    static const size_t nsegs[] = {300, 5000, 65535};
+    static const size_t segLen[] = {10, 13, 1};
+    size_t n = nsegs[j % 3], L = segLen[j % 3];
+    Rng r = c.fixedRng(j, 12);
+    History h;
+    Stream st;
+    st.dev = 3;
+    st.stream = 255;
+    SentMsg s;
+    s.ver = 1;
+    s.mt = wire::MT_DATA;
+    s.first.ts = r.next();
+    s.first.idWord = static_cast<uint32_t>(r.next());
+    s.first.flags = 0;
+    s.first.ptype = 0x55;
+    s.segmented = true;
+    s.data = uniqueContent(static_cast<uint32_t>(9000 + j), n * L, false);
+    uint16_t seq = static_cast<uint16_t>(r.next());
+    for (size_t i = 0; i < n; ++i)
+    {
+        GMsg m = s.first;
+        m.flags |= (i == 0 ? wire::SEG_FIRST : (i + 1 == n ? wire::SEG_LAST : wire::SEG_MID));
+        m.payload.assign(s.data.begin() + static_cast<long>(i * L), s.data.begin() + static_cast<long>((i + 1) * L));
+        SFrame f;
+        f.endpoint = 0;
+        f.raw = buildFrame(1, st.dev, wire::MT_DATA, st.stream, seq, {m});
+        if (seq == 65535)
+            ++h.wraps;
+        ++seq;
+        if (i + 1 == n)
+            f.completes.push_back(0);
+        st.frames.push_back(std::move(f));
+    }
+    h.msgs.push_back(std::move(s));
+    h.streams.push_back(std::move(st));
+    genStream(r, h, 1, 3, 0, 4, 65530, 30);
+    std::vector<int> order = randomMerge(r, h);
+    uint64_t il;
+    bool mo;
+    runInterleaving(c, h, order, il, mo);
+    c.sig(mix64(il, static_cast<uint64_t>(j) + 0x5e6));
+    c.count("wrap_crossings", h.wraps);
+    c.count("messages_in_hundreds_of_segments");
+}
+
 inline void randomCase(Ctx& c, long idx)
 {
     Rng r = c.caseRng(idx);
@@ -467,7 +516,7 @@ inline void randomCase(Ctx& c, long idx)
 
 inline long count(Ctx& c)
 {
-    return 36 + 24 + (c.thorough() ? 600000 : 12000);
+    return 36 + 24 + 3 + (c.thorough() ? 600000 : 12000);
 }
 inline void run(Ctx& c, long idx)
 {
@@ -475,6 +524,8 @@ inline void run(Ctx& c, long idx)
         return allMerges(c, idx);
     if (idx < 60)
         return bigTotals(c, idx - 36);
+    if (idx < 63)
+        return manySegments(c, idx - 60);
     randomCase(c, idx);
 }
 
